@@ -63,6 +63,18 @@ class FakeZeroconf:
         self.listener_log.append(("add", question))
         if WORLD:
             WORLD.log("zc_listen", zc=self.idx)
+        # python-zeroconf: a listener registered WITH questions is handed, synchronously from inside this call, the
+        # matching records the cache already holds (registered with None it hears only what arrives from now on)
+        cached = list(getattr(WORLD, "cache", None) or []) if WORLD else []
+        if question is not None and cached:
+            qs = question if isinstance(question, (list, tuple)) else [question]
+            hits = [u for u in cached if any(getattr(q, "name", None) == u.new.name and getattr(q, "type", None) == u.new.type for q in qs)]
+            if hits:
+                WORLD.log("zc_cache_replay", zc=self.idx, n=len(hits))
+                listener.async_update_records(self, 0.0, hits)
+                done = getattr(listener, "async_update_records_complete", None)
+                if done:
+                    done()
 
     def async_remove_listener(self, listener) -> None:
         if listener in self.listeners:
